@@ -5,6 +5,11 @@ package main
 // at most 2 deviations from "serve the whole request" (call index x size alphabet).
 
 import (
+	"os"
+	"os/exec"
+	"syscall"
+	"time"
+	"unsafe"
 	"bytes"
 	"fmt"
 	"io"
@@ -216,9 +221,127 @@ func head(a []int, n int) []int {
 
 var famGran = NewFamily("C06.policy", runGran)
 
+// ---- the command-line tool reading from a pipe that delivers the bytes in chosen pieces ----
+
+type cliPipeCase struct {
+	Dir    string `json:"direction"` // "c" | "d"
+	Pieces []int  `json:"first_pieces"`
+	Then   int    `json:"then_piece_size"` // size of all later pieces (0 = the rest at once)
+	Len    int    `json:"len"`
+}
+
+func (c cliPipeCase) String() string { return fmt.Sprintf("%s|%v|%d|%d", c.Dir, c.Pieces, c.Then, c.Len) }
+
+// feedPaced writes data to w in the given pieces; each piece is written only when the reader has
+// consumed everything written before (FIONREAD on the pipe), so no read can see more than one piece.
+func feedPaced(w *os.File, rd *os.File, data []byte, pieces []int, then int) {
+	defer w.Close()
+	off := 0
+	waitEmpty := func() {
+		for i := 0; i < 20000; i++ {
+			var n int32
+			_, _, e := syscall.Syscall(syscall.SYS_IOCTL, rd.Fd(), 0x541B /* FIONREAD */, uintptr(unsafe.Pointer(&n)))
+			if e != 0 || n == 0 {
+				return
+			}
+			time.Sleep(250 * time.Microsecond)
+		}
+	}
+	put := func(k int) bool {
+		k = min(k, len(data)-off)
+		if k <= 0 {
+			return false
+		}
+		if _, err := w.Write(data[off : off+k]); err != nil {
+			return false
+		}
+		off += k
+		waitEmpty()
+		return off < len(data)
+	}
+	for _, k := range pieces {
+		if !put(k) {
+			return
+		}
+	}
+	for off < len(data) {
+		k := then
+		if k <= 0 {
+			k = len(data) - off
+		}
+		if !put(k) {
+			return
+		}
+	}
+}
+
+func runCLIPiped(data []byte, c cliPipeCase, args ...string) (int, []byte, string) {
+	r, w, err := os.Pipe()
+	if err != nil {
+		return -3, nil, err.Error()
+	}
+	cmd := exec.Command(cliBin, args...)
+	cmd.Stdin = r
+	var so, se bytes.Buffer
+	cmd.Stdout, cmd.Stderr = &so, &se
+	if err := cmd.Start(); err != nil {
+		r.Close()
+		w.Close()
+		return -3, nil, err.Error()
+	}
+	go feedPaced(w, r, data, c.Pieces, c.Then)
+	done := make(chan error, 1)
+	go func() { done <- cmd.Wait() }()
+	code := 0
+	select {
+	case err := <-done:
+		if err != nil {
+			code = -1
+			if ee, ok := err.(*exec.ExitError); ok {
+				code = ee.ExitCode()
+			}
+		}
+	case <-time.After(5 * time.Minute):
+		cmd.Process.Kill()
+		code = -2
+	}
+	r.Close()
+	return code, so.Bytes(), trunc(se.String(), 300)
+}
+
+var famCLIPipe = NewFamily("C06.cli-pipe", func(c cliPipeCase) (*Fail, bool) {
+	data := shape("text", c.Len)
+	// reference: the same run with everything delivered at once through a file
+	code, msg, packed := runCLI(data, "-c", "-i", "stdin", "-o", "stdout", "-v", "0", "-l", "2", "-j", "2", "-b", "64k")
+	if code != 0 {
+		return failf("harness-cli", "reference compression failed: %d %s", code, msg), false
+	}
+	cls := fmt.Sprintf("direction=%s first-piece=%d", c.Dir, append(append([]int{}, c.Pieces...), c.Then)[0])
+	if c.Dir == "c" {
+		code, got, emsg := runCLIPiped(data, c, "-c", "-i", "stdin", "-o", "stdout", "-v", "0", "-l", "2", "-j", "2", "-b", "64k")
+		if code != 0 {
+			return failf("cli-fails-by-granularity "+cls, "%s: compressing from a pipe that delivers %v then %d-byte pieces: exit %d %s", c, c.Pieces, c.Then, code, emsg), true
+		}
+		// the stream may legitimately differ from the file run (size hint); it must decode to the input
+		code, emsg, back := runCLI(got, "-d", "-i", "stdin", "-o", "stdout", "-v", "0")
+		if code != 0 || !bytes.Equal(back, data) {
+			return failf("cli-differs-by-granularity "+cls, "%s: stream written while reading small pieces does not decode to the input (exit %d %s)", c, code, emsg), true
+		}
+		return nil, true
+	}
+	code, got, emsg := runCLIPiped(packed, c, "-d", "-i", "stdin", "-o", "stdout", "-v", "0", "-j", "2")
+	if code != 0 {
+		return failf("cli-fails-by-granularity "+cls, "%s: decompressing from a pipe that delivers %v then %d-byte pieces: exit %d %s (the same bytes decode when delivered at once)", c, c.Pieces, c.Then, code, emsg), true
+	}
+	if !bytes.Equal(got, data) {
+		return failf("cli-differs-by-granularity "+cls, "%s: output differs at %d", c, firstDiff(got, data)), true
+	}
+	return nil, true
+})
+
 func init() {
 	register("C06", "fault_enumeration", func(c *Ctx) {
-		c.Rule("environment-answer enumeration: the underlying source answers each Read with a size chosen by the explorer. Bitstream level: 6 read programs (ReadBits widths, aligned and unaligned ReadArray of 8..40000 bits) over DefaultInputBitStream(1024) x every uniform policy k in {1..17,64,1000} x every sequence with <= 2 deviations (call index 0..7 x size in {1,3,7,8,9,13,15,16,24}). Stream level: Reader(jobs 1,3) on {NONE, LZ/HUFFMAN, BWT/ANS0} x checksum {0,32} seeds x the same uniform policies and 1-deviation sequences, incl. streams larger than the 256 KiB bitstream buffer. Read side: all sequences of Read buffer lengths over {0,1,7,B-1,B,B+1,4B} of length 1..3 (4 in thorough), applied cyclically. (Write partitions: C04(iii).) Also: the call that delivers the last bytes returns io.EOF with them. Oracle: identical bytes, counters and terminal status as the all-at-once run. Non-trivial = at least one short answer")
+		c.Rule("environment-answer enumeration: the underlying source answers each Read with a size chosen by the explorer. Bitstream level: 6 read programs (ReadBits widths, aligned and unaligned ReadArray of 8..40000 bits) over DefaultInputBitStream(1024) x every uniform policy k in {1..17,64,1000} x every sequence with <= 2 deviations (call index 0..7 x size in {1,3,7,8,9,13,15,16,24}). Stream level: Reader(jobs 1,3) on {NONE, LZ/HUFFMAN, BWT/ANS0} x checksum {0,32} seeds x the same uniform policies and 1-deviation sequences, incl. streams larger than the 256 KiB bitstream buffer. Read side: all sequences of Read buffer lengths over {0,1,7,B-1,B,B+1,4B} of length 1..3 (4 in thorough), applied cyclically. (Write partitions: C04(iii).) Also: the call that delivers the last bytes returns io.EOF with them. The command-line tool (-c and -d, stdin -> stdout) reading from a pipe whose first pieces are 1..9 bytes, runs of single bytes, uniform 7/100/4096/65536/65537-byte pieces, each piece written only after the previous one was consumed (FIONREAD pacing). Oracle: identical bytes, counters and terminal status as the all-at-once run. Non-trivial = at least one short answer")
 		c.Assume("a conforming io.Writer cannot accept fewer bytes without an error, so the sink side has no size behaviour beyond the library's own call sizes (faulty sinks: C08)")
 		uniforms := []int{0, 1, 2, 3, 4, 5, 6, 7, 8, 9, 10, 11, 12, 13, 14, 15, 16, 17, 64, 1000}
 		devSizes := []int{1, 3, 7, 8, 9, 13, 15, 16, 24}
@@ -265,6 +388,7 @@ func init() {
 					}
 				}
 			}
+			_ = 0
 			// Read buffer length sequences
 			alpha := []int{0, 1, 7, B - 1, B, B + 1, 4 * B}
 			maxLen := pick(c, 3, 4)
@@ -289,6 +413,29 @@ func init() {
 				}
 			}
 			rec(nil)
+		})
+		// the command-line tool reading stdin from a pipe, first pieces of 1..9 bytes, runs of single bytes
+		if err := buildCLI(); err != nil {
+			c.HarnessError(err.Error())
+			return
+		}
+		defer os.Remove(cliBin)
+		famCLIPipe.Each(c, 8, func(emit func(cliPipeCase)) {
+			for _, d := range []string{"d", "c"} {
+				for first := 1; first <= 9; first++ {
+					emit(cliPipeCase{Dir: d, Pieces: []int{first}, Then: 0, Len: 200000})
+				}
+				emit(cliPipeCase{Dir: d, Pieces: []int{1, 19}, Then: 0, Len: 200000})
+				emit(cliPipeCase{Dir: d, Pieces: []int{3, 1, 16, 5}, Then: 4096, Len: 200000})
+				ones := make([]int, 40)
+				for i := range ones {
+					ones[i] = 1
+				}
+				emit(cliPipeCase{Dir: d, Pieces: ones, Then: 0, Len: 200000})
+				for _, u := range []int{7, 100, 4096, 65536, 65537} {
+					emit(cliPipeCase{Dir: d, Then: u, Len: 30000})
+				}
+			}
 		})
 	})
 }
